@@ -226,6 +226,11 @@ func c03Bound(c *Ctx) {
 			def = decoy
 			opts = append(opts, ratelimit.ExtractRates(ratelimit.RateExtractorFunc(func(*http.Request) (*ratelimit.RateSet, error) { return mkRateSet(rs), nil })))
 		}
+		capacity := 0
+		if r.IntN(3) == 0 { // exactly as many tracked sources as the capacity allows (still inside the proviso)
+			capacity = nsrc
+			opts = append(opts, ratelimit.Capacity(capacity))
+		}
 		tl, err := ratelimit.New(next, hdrExtractor, def, opts...)
 		if err != nil {
 			c.Violation("constructor", err.Error(), nil)
@@ -278,7 +283,7 @@ func c03Bound(c *Ctx) {
 		c.Count("requests", int64(len(hist)))
 		c.Count("rejections", int64(rejected))
 		span := now().Sub(start)
-		desc := map[string]any{"rates": rs, "sources": nsrc, "requests": len(hist), "span": span.String(), "rates_via_extractor": viaExtract}
+		desc := map[string]any{"rates": rs, "sources": nsrc, "requests": len(hist), "span": span.String(), "rates_via_extractor": viaExtract, "capacity": capacity}
 		if overBurstAdmitted > 0 {
 			c.Violation("bound/over-burst-admitted", sfmt("rates %v: %d requests larger than the burst were admitted", rs, overBurstAdmitted), desc)
 			return
